@@ -153,6 +153,7 @@ class Interp:
         self.encoded = set()
         self.stubs = {}  # real function object -> replacement callable (lemma-justified cuts, nondeterministic stubs)
         self.depth = 0
+        self.cheap_fmt = 0
         self.native_stubs = {}
         self._globs = {}
         Interp.cur = self
@@ -291,8 +292,12 @@ class Interp:
                 return f(*args, **kwargs)
         import logging as _logging
 
-        if isinstance(selfobj, _logging.Logger) or getattr(f, "__module__", None) == "logging":
-            return None  # logging is a no-op stub
+        if isinstance(selfobj, _logging.Logger):
+            if f.__name__ in ("debug", "info", "warning", "error", "exception", "critical", "log"):
+                return None  # logging is a no-op stub
+            return f(*[unwrap(a) for a in args], **{k: unwrap(v) for k, v in kwargs.items()})
+        if getattr(f, "__module__", None) == "logging":
+            return None
         # native call: only with concrete arguments
         args2 = [self.as_native_callable(unwrap(a)) for a in args]
         kwargs2 = {k: self.as_native_callable(unwrap(v)) for k, v in kwargs.items()}
@@ -637,7 +642,13 @@ class Interp:
     def x_Raise(self, st, env):
         if st.exc is None:
             raise
-        e = self.ev(st.exc, env)
+        # the text of an exception message is no observable of any property: symbolic values inside f-strings /
+        # format() are rendered as a placeholder instead of forking over their renderings
+        self.cheap_fmt += 1
+        try:
+            e = self.ev(st.exc, env)
+        finally:
+            self.cheap_fmt -= 1
         if isinstance(e, type):
             e = e()
         if isinstance(e, StopIteration):
@@ -956,6 +967,12 @@ class Interp:
         if isinstance(e.func, ast.Name) and e.func.id == "super" and not e.args:
             return SuperProxy(env.lookup("__class__"), env.lookup("__symx_self__"), self)
         f = self.ev(e.func, env)
+        import logging as _logging
+
+        if isinstance(getattr(f, "__self__", None), _logging.Logger) and f.__name__ in (
+            "debug", "info", "warning", "error", "exception", "critical", "log"
+        ):
+            return None  # logging is a no-op stub: its arguments are not even rendered
         args = []
         for a in e.args:
             if isinstance(a, ast.Starred):
